@@ -84,6 +84,27 @@ def gen_groups(run, thorough):
         groups.append(("chunking/entry-point", label, variants))
         if plain and hint == dlen and dlen > 0:
             groups.append(("one-shot-vs-stream", label, [variants[0], "W P=%s D=%s:%d:%d E=oneshot" % (params2, kind, dlen, seed)]))
+    # C: one/two-pass qualities: a single chunk larger than every internal block size, with output space
+    #    above and below the in-place threshold and with take-output
+    for q, lgwin in ((0, 18), (0, 22), (1, 18), (1, 22)):
+        for kind in ("text", "rand"):
+            dlen = 400000
+            seed = rng.randrange(1, 1 << 30)
+            for calls in ("p%d,e0" % dlen, "p200000,p200000,e0", "f%d,e0" % dlen):
+                base = "P=1:%d,2:%d D=%s:%d:%d G=%s" % (q, lgwin, kind, dlen, seed, calls)
+                groups.append(("fast-path-big-chunk", "q%d" % q,
+                               ["L %s O=%s A=std" % (base, o) for o in ("1048576", "70000", "1000", "take:100000", "300000,5")]))
+    # D: the one-shot entry point against the stream with the same settings (mode, window incl. large window)
+    for q in (4, 5, 9) + ((11,) if thorough else ()):
+        for mode in range(7):
+            for lgwin in (22, 26):
+                dlen = 60000 if q < 11 else 5000
+                seed = rng.randrange(1, 1 << 30)
+                pl = "1:%d,2:%d,0:%d,5:%d" % (q, lgwin, mode, dlen) + (",6:1" if lgwin > 24 else "")
+                groups.append(("one-shot-vs-stream-modes", "q%d" % q,
+                               ["L P=%s D=text:%d:%d G=p%d,e0 O=1048576 A=std" % (pl, dlen, seed, dlen),
+                                "W P=%s D=text:%d:%d E=oneshot" % (pl, dlen, seed),
+                                "W P=%s D=text:%d:%d E=writer B=4096 K=1000" % (pl, dlen, seed)]))
     return groups
 
 
